@@ -11,8 +11,9 @@
 (*          xms, xnode, xstep}      absolute ms)                           *)
 (*   pair  {a, b, fa, fb}           two ids and their IDFields triples     *)
 (*   date  {id, cn, back, err,      CnStyle(id) as character codes,        *)
-(*          back2, err2}            FromChStyle(CnStyle(id)) and error     *)
-(*                                  flag, twice on the same string         *)
+(*          back2, err2, cn2}       FromChStyle(CnStyle(id)) and error     *)
+(*                                  flag, twice on the same string;        *)
+(*                                  CnStyle(id) asked a second time        *)
 (*   range {fn, bsec, esec, min, max}                                      *)
 (*         TimeBetweenID(begin, end) / TimeIDRange(t): t.Unix() of the     *)
 (*         arguments (second truncation) and the returned interval         *)
@@ -49,6 +50,7 @@ TDate(e) ==
   /\ IsNum(e.id) /\ ~Neg(e.id) /\ IsNum(e.back)
   /\ DateOK(e.id, e.cn, e.back, e.err)
   /\ IsNum(e.back2) /\ DateOK(e.id, e.cn, e.back2, e.err2)     \* the same string decoded again
+  /\ e.cn2 = e.cn                                              \* the same id rendered again
   /\ UNCHANGED <<cfg, epoch>>
 
 TRange(e) ==
